@@ -6,7 +6,7 @@ alpha, beta in {0, 0.3, 1} x step sizes in {1, 0.5} x fix_probe; J in {1, 2, 5} 
 without rotation and padding; window indices for ALL centre positions on a 5 x 6 object with 3 window shapes.
 Oracle: |FFT(projected)| = amplitude and arg FFT(projected) = arg FFT(input) wherever both are non-zero; the projection is idempotent;
 with the true object and probe and amplitude = |FFT(O P)| the r-PIE update returns O and P unchanged and adds zero error; the pixel
-positions are J, in the input order (pairwise differences = input differences / sampling, rotated); window indices == np.roll reference.
+consecutive positions (5 previous-position kinds incl. sub-pixel parts on both sides of the pixel centre): the probe leaves at the new position's sub-pixel offset; positions are J, in the input order (pairwise differences = input differences / sampling, rotated); window indices == np.roll reference.
 """
 import itertools
 
@@ -29,6 +29,9 @@ def check(ctx):
         cases.append({"kind": "projection", "shape": sh, "wave": wk, "amp": ak})
     for pos, a, b, step, fix in itertools.product(("integer", "fractional", "wrapping"), (0.0, 0.3, 1.0), (0.0, 0.3, 1.0), (1.0, 0.5), (False, True)):
         cases.append({"kind": "update", "pos": pos, "alpha": a, "beta": b, "step": step, "fix_probe": fix})
+    # consecutive scan positions: the probe arrives shifted to the PREVIOUS position's sub-pixel offset and must leave at the new one
+    for pos, old in itertools.product(("integer", "fractional", "wrapping"), ("same", "minus-3.2-3.4", "plus-0.6-minus-0.7", "half", "far")):
+        cases.append({"kind": "consecutive", "pos": pos, "old": old})
     for J, rot, pad in itertools.product((1, 2, 5, 6), (None, 0.3), (None, [4, 6])):
         cases.append({"kind": "positions", "J": J, "rot": rot, "pad": pad})
         if J in (2, 6):  # explicit positions AND a grid scan shape in the parameters (what preprocessing of 4-D data leaves behind)
@@ -44,6 +47,9 @@ def check(ctx):
                 cases.append({"kind": "positions", "J": 4, "rot": rot, "pad": pad, "perm": list(perm), "grid": grid, "steps": None})
         for pos, a, b, step, fix in itertools.product(("integer", "fractional", "wrapping"), (0.05, 0.6), (0.05, 0.6), (1.0, 0.25), (False, True)):
             cases.append({"kind": "update", "pos": pos, "alpha": a, "beta": b, "step": step, "fix_probe": fix})
+    # consecutive scan positions: the probe arrives shifted to the PREVIOUS position's sub-pixel offset and must leave at the new one
+    for pos, old in itertools.product(("integer", "fractional", "wrapping"), ("same", "minus-3.2-3.4", "plus-0.6-minus-0.7", "half", "far")):
+        cases.append({"kind": "consecutive", "pos": pos, "old": old})
         for win in ([1, 1], [4, 3], [5, 1], [2, 6]):
             cases.append({"kind": "window", "win": win})
     ctx.workers = 8
@@ -140,6 +146,28 @@ def run_case(c):
         if c["fix_probe"] and np.abs(p3 - p_shifted).max() > 0:
             bad("update/fix-probe", "fix_probe=True but the probe changed")
         return {"viol": viol, "obs": "ok" if not viol else viol[0]["key"], "tr": 4}
+    if c["kind"] == "consecutive":
+        from abtem.core.fft import fft_shift
+
+        r = rng("c28c", c["pos"])
+        obj = np.exp(1j * 0.4 * r.normal(size=(12, 13))) * (1 + 0.1 * r.normal(size=(12, 13)))
+        probe0 = (r.normal(size=(8, 8)) + 1j * r.normal(size=(8, 8))) * np.exp(-((np.arange(8)[:, None] - 4) ** 2 + (np.arange(8)[None] - 4) ** 2) / 6.0)
+        position = {"integer": np.array([6.0, 7.0]), "fractional": np.array([5.3, 6.8]), "wrapping": np.array([0.6, 12.2])}[c["pos"]]
+        old = position - {"same": np.zeros(2), "minus-3.2-3.4": np.array([3.2, 3.4]), "plus-0.6-minus-0.7": np.array([-0.6, 0.7]), "half": np.array([0.5, 1.5]),
+                          "far": np.array([4.45, -2.55])}[c["old"]]
+        frac = lambda x: x - np.round(x)  # noqa: E731
+        probe_at_old = np.asarray(fft_shift(probe0.astype(np.complex128), frac(old)))  # the state the operator keeps between positions
+        p_shifted, exit_wave = Op._overlap_projection(obj.copy(), probe_at_old.copy(), position, old, xp=np)
+        want = np.asarray(fft_shift(probe0.astype(np.complex128), frac(position)))  # the probe at the new position's own sub-pixel offset
+        scale = float(np.abs(want).max())
+        e = float(np.abs(np.asarray(p_shifted) - want).max()) / scale
+        if not e <= 1e-5:
+            bad("consecutive/probe-subpixel-shift", "after moving from %r to %r the probe differs from the origin probe shifted by the new sub-pixel offset %r by %.3g (relative)" % (
+                old.tolist(), position.tolist(), frac(position).tolist(), e))
+        idx = R._wrapped_indices_2D_window(position, probe0.shape, obj.shape)
+        if np.abs(exit_wave - obj[idx] * p_shifted).max() > 1e-12:
+            bad("overlap/definition", "exit wave is not object window x probe")
+        return {"viol": viol, "obs": "ok" if not viol else viol[0]["key"], "tr": 2, "err": e / 1e-5}
     if c["kind"] == "positions":
         J = c["J"]
         pts = np.array([[3.0, 1.0], [0.5, 2.5], [2.0, 0.0], [4.5, 4.0], [1.0, 3.5], [3.5, 0.5]])[:J]
